@@ -4,7 +4,7 @@
 (* (of: float64 numbers, on: json.Number, og: integral numbers as Go int) and through    *)
 (* IsMatching (om).  TLC evaluates the reference semantics           *)
 (* (SchemaSem!Valid) on each (schema, value) and rejects the line on any difference.     *)
-EXTENDS SchemaUniverse, SchemaImpl, FindingsC01, Json, CSV
+EXTENDS SchemaUniverse, SchemaImpl, FindingsC01, Defaults, Json, CSV
 
 Trace == ndJsonDeserialize("trace.ndjson")
 
@@ -20,21 +20,70 @@ Want(s, v) == IF Valid(s, v, "plain") THEN "A" ELSE "R"
 Acc(b) == IF b THEN "A" ELSE "R"
 ModelAgrees(line) ==
    LET vs == TheVals(line) IN
-   \A i \in DOMAIN vs : /\ line.of[i] = Acc(Accepts(line.s, vs[i], "f64"))
-                        /\ line.om[i] = Acc(Accepts(line.s, vs[i], "f64"))
+   \A i \in DOMAIN vs : LET af == Acc(Accepts(line.s, vs[i], "f64")) IN
+                        /\ line.of[i] = af /\ line.om[i] = af
                         /\ line.on[i] = Acc(Accepts(line.s, vs[i], "num"))
 
+Forms == {"of", "on", "om", "og"}
+
+(* The directed readings (oq: VisitAsRequest, op: VisitAsResponse, both with DefaultsSet, on a value of their own).     *)
+(* Their verdict is Valid(s, v, side) -- the reference semantics of that side -- whenever the defaults of the schema   *)
+(* are INERT for the value: every sub-schema that declares a default lies inside an alternative of anyOf / oneOf that  *)
+(* the value (the part of it the alternative is applied to) does not satisfy.  Such an alternative must leave no trace. *)
+(* Where a default can really be installed the completed value is what is validated; that is not judged here (C13).    *)
+HasDefault(s) == \E t \in SubSchemas(s) : Has(t, "default")
+HasSide(s) == \E t \in SubSchemas(s) : Has(t, "readOnly") \/ Has(t, "writeOnly")
+RECURSIVE Inert(_, _, _)
+Inert(s, v, side) ==
+   \/ ~HasDefault(s)
+   \/ /\ ~Has(s, "default")
+      /\ Has(s, "not") => ~HasDefault(s.not)
+      \* ... does not satisfy, neither as it is nor with that alternative's own defaults in place (Defaults!WithDefaults, the
+      \* L1 of C13: an alternative that matches once its defaults are installed does match, and its defaults stay)
+      /\ \A f \in {"oneOf", "anyOf"} \cap DOMAIN s : \A i \in DOMAIN s[f] :
+            HasDefault(s[f][i]) => (~Valid(s[f][i], v, side) /\ ~Valid(s[f][i], WithDefaults(s[f][i], v), side))
+      /\ Has(s, "allOf") => \A i \in DOMAIN s.allOf : Inert(s.allOf[i], v, side)
+      /\ Has(s, "items") => IF v.t = "arr" THEN \A i \in DOMAIN v.a : Inert(s.items, v.a[i], side) ELSE TRUE
+      /\ Has(s, "apSchema") => ~HasDefault(s.apSchema)
+      /\ Has(s, "pk") => IF v.t = "obj"
+                         THEN \A i \in DOMAIN s.pk : /\ ~Has(s.ps[i], "default")
+                                                     /\ HasKey(v, s.pk[i]) => Inert(s.ps[i], Get(v, s.pk[i]), side)
+                         ELSE TRUE
+(* Outside this clause: a declared property with a default whose value is JSON null.  With DefaultsSet the library   *)
+(* installs the default OVER the null (visitJSONObject tests value[k] == nil: null counts as absent there), so the    *)
+(* directed reading accepts {x: null} where the plain reading rejects it; C01's statement does not say which is right. *)
+RECURSIVE DefNull(_, _)
+DefNull(s, v) ==
+   \/ /\ v.t = "obj" /\ Has(s, "pk")
+      /\ \E i \in DOMAIN s.pk : /\ HasKey(v, s.pk[i])
+                                 /\ \/ (Has(s.ps[i], "default") /\ Get(v, s.pk[i]).t = "null")
+                                    \/ DefNull(s.ps[i], Get(v, s.pk[i]))
+   \/ \E f \in {"oneOf", "anyOf", "allOf"} \cap DOMAIN s : \E i \in DOMAIN s[f] : DefNull(s[f][i], v)
+   \/ (Has(s, "items") /\ v.t = "arr" /\ \E i \in DOMAIN v.a : DefNull(s.items, v.a[i]))
+   \/ (Has(s, "not") /\ DefNull(s.not, v))
+Judged(s, v, side) == Inert(s, v, side) /\ (HasDefault(s) => (~DefNull(s, v) /\ ~HasSide(s)))
+SideOf(f) == IF f = "oq" THEN "asreq" ELSE "asrep"
+
+(* the reference semantics is evaluated once per (schema, value) and compared with every form *)
 Mismatches(line) ==
-   LET vs == TheVals(line) IN
-   {m \in [i : DOMAIN vs, form : {"of", "on", "om", "og"}] : line[m.form][m.i] # Want(line.s, vs[m.i])}
+   LET vs == TheVals(line)
+       sided == HasSide(line.s)           \* without readOnly / writeOnly the directed semantics is the plain one
+       directed == {"oq", "op"} \cap DOMAIN line
+   IN
+   UNION {LET w == Want(line.s, vs[i]) IN
+          {[i |-> i, form |-> f, want |-> w] : f \in {g \in Forms : line[g][i] # w}}
+          \cup {[i |-> i, form |-> f, want |-> (IF sided THEN Acc(Valid(line.s, vs[i], SideOf(f))) ELSE w)]
+                   : f \in {g \in directed : /\ Judged(line.s, vs[i], SideOf(g))
+                                              /\ line[g][i] # (IF sided THEN Acc(Valid(line.s, vs[i], SideOf(g))) ELSE w)}}
+          : i \in DOMAIN vs}
 
 Shared(line) == "share" \in DOMAIN line      \* repeated sub-schemas realised as references to one shared component
 
 Report(line, m) ==
    LET v == TheVals(line)[m.i] IN
    [case |-> line.case, s |-> line.s, share |-> Shared(line), i |-> m.i, v |-> v, form |-> m.form,
-    got |-> line[m.form][m.i], want |-> Want(line.s, v),
-    class |-> Class(line, m.i, m.form, v, Want(line.s, v))]
+    got |-> line[m.form][m.i], want |-> m.want,
+    class |-> Class(line, m.i, m.form, v, m.want)]
 
 LineOK(line) ==
    IF line.load # "ok"
